@@ -186,7 +186,7 @@ func init() {
 		Rule: "every derivation of the core sub-grammar (start symbol x chain of selector/projection steps, parenthesised prefixes, boolean/comparison operators, let) up to the stated depth is evaluated on every JSON document of " +
 			"the stated alphabet through the compiled Expression (and through one-shot Search on the first documents) and compared with the reference interpreter; expressions and documents are enumerated without repetition; " +
 			"non-trivial = a non-null, non-empty value; distinct_nontrivial counts distinct such outcomes",
-		Phases: []core.Phase{{Name: "diff", Build: "instr", Fn: c01Run}},
+		Phases: []core.Phase{{Name: "diff", Build: "instr", Fn: c01Run}, {Name: "compose", Build: "instr", Fn: composeRun("C01", 0)}},
 		Judge:  c01Judge,
 		Assumptions: []string{
 			"the oracle is the reference interpreter mc/ref (bound to the compliance corpus by ref-conformance: every case reproduced or explicitly undetermined)",
@@ -296,6 +296,9 @@ func c01One(r *core.Run, text, shape string, docs []doc) {
 }
 
 func c01Judge(r *core.Run, phase string, p map[string]any) *core.Violation {
+	if phase == "compose" {
+		return composeJudge(r, "C01", p)
+	}
 	text, dt := pstr(p, "expr"), pstr(p, "doc")
 	d := mkDoc(dt)
 	c := prepare(text)
